@@ -21,9 +21,13 @@ import (
 	"github.com/named-data/ndnd/std/utils"
 )
 
-const lpPacketOverhead = 1 + 3
-const pitTokenOverhead = 1 + 1 + 6
-const congestionMarkOverhead = 3 + 1 + 8
+// Worst-case encoded sizes of the LpPacket header elements of a fragment frame.
+const lpPacketOverhead = 1 + 3                       // LpPacket (Type + Length of up to 2^16)
+const fragmentOverhead = 1 + 3                       // Fragment (Type + Length of up to 2^16)
+const sequenceOverhead = 1 + 1 + 8                   // Sequence
+const fragIndexCountOverhead = 1 + 1 + 2 + 1 + 1 + 2 // FragIndex/FragCount (Type + Length + up to 2^16 fragments)
+const incomingFaceIdOverhead = 3 + 1 + 8             // IncomingFaceId
+const congestionMarkOverhead = 3 + 1 + 8             // CongestionMark
 
 // maxFragments is the largest FragCount accepted for reassembly (NFD: LpReassembler nMaxFragments)
 const maxFragments = 400
@@ -114,20 +118,10 @@ func (l *NDNLPLinkService) SetOptions(options NDNLPLinkServiceOptions) {
 	l.computeHeaderOverhead()
 }
 
+// computeHeaderOverhead computes the bytes every frame of a fragmented packet needs
+// besides the fragment payload and the per-packet header fields.
 func (l *NDNLPLinkService) computeHeaderOverhead() {
-	l.headerOverhead = lpPacketOverhead // LpPacket (Type + Length of up to 2^16)
-
-	if l.options.IsFragmentationEnabled {
-		l.headerOverhead += 1 + 1 + 8 // Sequence
-	}
-
-	if l.options.IsFragmentationEnabled {
-		l.headerOverhead += 1 + 1 + 2 + 1 + 1 + 2 // FragIndex/FragCount (Type + Length + up to 2^16 fragments)
-	}
-
-	if l.options.IsIncomingFaceIndicationEnabled {
-		l.headerOverhead += 3 + 1 + 8 // IncomingFaceId
-	}
+	l.headerOverhead = lpPacketOverhead + fragmentOverhead + sequenceOverhead + fragIndexCountOverhead
 }
 
 // Run starts the face and associated goroutines
@@ -188,52 +182,6 @@ func sendPacket(l *NDNLPLinkService, out dispatch.OutPkt) {
 
 	now := time.Now()
 
-	effectiveMtu := l.transport.MTU() - l.headerOverhead
-	if pkt.PitToken != nil {
-		effectiveMtu -= pitTokenOverhead
-	}
-	if pkt.CongestionMark != nil {
-		effectiveMtu -= congestionMarkOverhead
-	}
-
-	// Fragmentation
-	var fragments []*spec.LpPacket
-	if len(wire) > effectiveMtu {
-		if !l.options.IsFragmentationEnabled {
-			core.LogInfo(l, "Attempted to send frame over MTU on link without fragmentation - DROP")
-			return
-		}
-
-		// Split up fragment
-		nFragments := int((len(wire) + effectiveMtu - 1) / effectiveMtu)
-		fragments = make([]*spec.LpPacket, nFragments)
-		reader := enc.NewBufferReader(wire)
-		for i := 0; i < nFragments; i++ {
-			readSize := effectiveMtu
-			if i == nFragments-1 {
-				readSize = len(wire) - effectiveMtu*(nFragments-1)
-			}
-
-			frag, err := reader.ReadWire(readSize)
-			if err != nil {
-				core.LogFatal(l, "Unexpected Wire reading error")
-			}
-			fragments[i] = &spec.LpPacket{Fragment: frag}
-		}
-	} else {
-		fragments = []*spec.LpPacket{{Fragment: enc.Wire{wire}}}
-	}
-
-	// Sequence, FragIndex and FragCount
-	if len(fragments) > 1 {
-		for i, fragment := range fragments {
-			fragment.Sequence = utils.IdPtr(l.nextSequence)
-			fragment.FragIndex = utils.IdPtr(uint64(i))
-			fragment.FragCount = utils.IdPtr(uint64(len(fragments)))
-			l.nextSequence++
-		}
-	}
-
 	// Congestion marking
 	congestionMark := pkt.CongestionMark // from upstream
 	if congestionMarking {
@@ -253,29 +201,76 @@ func sendPacket(l *NDNLPLinkService, out dispatch.OutPkt) {
 		l.congestionCheck += uint64(len(wire)) // approx
 	}
 
-	// Send fragment(s)
-	for _, fragment := range fragments {
-		// PIT tokens
-		if len(out.PitToken) > 0 {
-			fragment.PitToken = out.PitToken
-		}
+	// Header fields carried by every frame of this packet, and their encoded size
+	header := spec.LpPacket{}
+	overhead := l.headerOverhead
+	if len(out.PitToken) > 0 {
+		header.PitToken = out.PitToken
+		overhead += 1 + enc.TLNum(len(out.PitToken)).EncodingLength() + len(out.PitToken)
+	}
+	if l.options.IsIncomingFaceIndicationEnabled && out.InFace != nil {
+		header.IncomingFaceId = out.InFace
+		overhead += incomingFaceIdOverhead
+	}
+	if congestionMark != nil {
+		header.CongestionMark = congestionMark
+		overhead += congestionMarkOverhead
+	}
 
-		// Incoming face indication
-		if l.options.IsIncomingFaceIndicationEnabled && out.InFace != nil {
-			fragment.IncomingFaceId = out.InFace
-		}
-
-		// Congestion marking
-		if congestionMark != nil {
-			fragment.CongestionMark = congestionMark
-		}
-
-		pkt := &spec.Packet{
-			LpPacket: fragment,
-		}
+	encode := func(frame *spec.LpPacket) enc.Wire {
+		pkt := &spec.Packet{LpPacket: frame}
 		encoder := spec.PacketEncoder{}
 		encoder.Init(pkt)
-		frameWire := encoder.Encode(pkt)
+		return encoder.Encode(pkt)
+	}
+
+	// A packet that fits into one frame together with its header is sent unfragmented
+	mtu := l.transport.MTU()
+	whole := header
+	whole.Fragment = enc.Wire{wire}
+	frames := []enc.Wire{encode(&whole)}
+
+	// Fragmentation
+	if frames[0] != nil && int(frames[0].Length()) > mtu {
+		if !l.options.IsFragmentationEnabled {
+			core.LogInfo(l, "Attempted to send frame over MTU on link without fragmentation - DROP")
+			return
+		}
+
+		effectiveMtu := mtu - overhead
+		if effectiveMtu <= 0 {
+			core.LogInfo(l, "MTU too small to carry the link protocol header - DROP")
+			return
+		}
+
+		// Split up fragment
+		nFragments := int((len(wire) + effectiveMtu - 1) / effectiveMtu)
+		frames = make([]enc.Wire, nFragments)
+		reader := enc.NewBufferReader(wire)
+		for i := 0; i < nFragments; i++ {
+			readSize := effectiveMtu
+			if i == nFragments-1 {
+				readSize = len(wire) - effectiveMtu*(nFragments-1)
+			}
+
+			frag, err := reader.ReadWire(readSize)
+			if err != nil {
+				core.LogFatal(l, "Unexpected Wire reading error")
+			}
+
+			// Sequence, FragIndex and FragCount
+			fragment := header
+			fragment.Fragment = frag
+			fragment.Sequence = utils.IdPtr(l.nextSequence)
+			fragment.FragIndex = utils.IdPtr(uint64(i))
+			fragment.FragCount = utils.IdPtr(uint64(nFragments))
+			l.nextSequence++
+			frames[i] = encode(&fragment)
+		}
+	}
+
+	// Send frame(s)
+	for _, frameWire := range frames {
 		if frameWire == nil {
 			core.LogError(l, "Unable to encode fragment - DROP")
 			break
